@@ -110,15 +110,17 @@ def matrix():
             for op in ops_for(ot, ngc, constructed):
                 if op == 'sweep' and base in ('range_heap', 'zip_heap'):
                     continue      # released by their owner's destructor: C06 (defect D18), not this property
-                if T == 'Range' and ngc and ((base.startswith('alloc') and op.startswith('del') and not op.startswith('dealloc'))
-                                             or (base == 'stack' and op == 'destruct')):
-                    # Range_Del is del(r->value): on a merely alloc'ed Range that is del(NULL) (ValueError), on a
-                    # stack Range it is del of its stack Int (ResourceError without the collector). Both are the
-                    # destructor refusing, nothing is released; the model has no "owner" kind, so these 10 cells
-                    # are left out of the correspondence (listed in design.d/C19.md)
+                if T == 'Range' and ((base.startswith('alloc') and not op.startswith('dealloc')) or
+                                     (ngc and base == 'stack' and op == 'destruct')):
+                    # Range_Del is del(r->value): on a merely alloc'ed (never constructed) Range that is del(NULL),
+                    # whatever runs the destructor (del*, a sweep); on a stack Range it is del of its stack Int
+                    # (ResourceError without the collector). The destructor refuses, nothing is released; the model
+                    # has no "owner" kind, so these cells are left out of the matrix (design.d/C19.md)
                     continue
                 cases.append('%d %s %s %s %s %s' % (ngc, T, K, V, p, op))
             for h in MATCHED[ngc].get(base, []):
+                if T == 'Range' and base.startswith('alloc'):
+                    continue
                 if ',' in h:
                     cases.append('%d %s %s %s %s %s' % (ngc, T, K, V, p, h))
     return cases
